@@ -22,11 +22,12 @@ Variable thr : N.
 Variable fix_iter fix_overlay : bool.
 
 (** sorted duplicate-free insertion (the store and the harness' set type iterate in order) *)
-Fixpoint ins (x : N) (l : list N) : list N :=
+Fixpoint isort (x : N) (l : list N) : list N :=
   match l with
   | [] => [x]
-  | y :: r => if x <? y then x :: l else if x =? y then l else y :: ins x r
+  | y :: r => if x <? y then x :: l else y :: isort x r
   end.
+Definition ins (x : N) (l : list N) : list N := if mem x l then l else isort x l.
 
 Inductive centry := InMem (s : list N) | TooLarge.
 
@@ -84,11 +85,9 @@ Fixpoint apply_ops (ops : list (N * bool)) (s : list N) : list N :=
   | [] => s
   | (x, i) :: r => let s' := apply_ops r s in if i then ins x s' else del x s'
   end.
-Fixpoint commit_store (ws : list (key * list (N * bool))) (m : list (key * list N)) : list (key * list N) :=
-  match ws with
-  | [] => m
-  | (k, ops) :: r => let m' := commit_store r m in aset k (apply_ops ops (sget k m')) m'
-  end.
+(** the new bindings shadow the old ones; every key of the batch is computed from the old store *)
+Definition commit_store (ws : list (key * list (N * bool))) (m : list (key * list N)) : list (key * list N) :=
+  map (fun '(k, ops) => (k, apply_ops ops (sget k m))) ws ++ m.
 
 (** ** reading *)
 
